@@ -31,6 +31,8 @@
         f<t>+<t>..@<e>:<kind>/<e>:<kind>..   an invocation -j1 -k1 in which commands may fail (HistFailDefs.buildF):
                    statement e fails when it is started; kind = u (outputs left alone) | d (outputs removed) |
                    w<c> (every output o rewritten with content c + o, fresh ticks)
+        f<t>+<t>..@<e>:<kind>/..@k<N>   the same with -k N (N = 0: no limit), HistFailKDefs.buildFK: several commands may fail,
+                   what depends on a failed statement is skipped, nothing is started once N commands have failed
         k<t>+<t>..@<pos>:<at>   an invocation KILLED at the crash point (HistCrashDefs.buildK): pos = statement number (>= the
                    number of statements: after the last one); at = b (KBefore) | l (KLocked: lock file written) |
                    w<k> (the first k outputs written completely, with the contents of a successful run) |
@@ -59,6 +61,8 @@
       | F ok=<0|1> failed=<0|1> fe=<e> ts=<0|1> run=<e>+<e>.. nodes=...   failing build: ok = accepted by the scan,
              failed = exit flag "subcommand failed", fe = the statement that failed ("-" = none),
              run = the commands STARTED, oldest first (the failing one is the last)
+             with @k<N>: fe = ALL failed statements, oldest first, joined by '+'; blk = the blocked statements (failed, or
+             skipped because an input's statement is blocked); bud = failures still allowed at the end ("inf" = -k 0)
       | P res=<done|refused|invalid|incomplete|fuel> ok=<0|1> acc=<n> ts= run=.. bfok= bf=.. conf=<0|1> nodes=..
              a build under a schedule: res = HistParDefs.presult (done = a valid complete execution; the state goes on from
              it), acc = number of events accepted (par_accepted: the index of the first refused event), run = the commands
@@ -132,7 +136,7 @@ let rest s = String.sub s 1 (String.length s - 1)
 type xstep =
   | P of hstep
   | Dry of nat list
-  | FB of nat list * (int * char * int) list     (* targets, (statement, kind, content base) *)
+  | FB of nat list * (int * char * int) list * int option     (* targets, (statement, kind, content base), -k N (None: -k1 model) *)
   | KB of nat list * int * char * int * int      (* killed: targets, position, point b|l|w|g|j, count, content base *)
   | IB of nat list * int * int * int             (* interrupted: targets, position, writes, content base *)
   | PB of nat list * int * pevent list           (* a build under a schedule: targets, job limit (0 = none), events *)
@@ -147,13 +151,14 @@ let parse_step (t : string) : xstep =
   | 'b' -> P (Build (nids '+' (rest t)))
   | 'n' -> Dry (nids '+' (rest t))
   | 'f' ->
+    let faults fs = List.map (fun f -> match String.split_on_char ':' f with
+        | [e; k] when k <> "" ->
+          (int_of_string e, k.[0], if k.[0] = 'w' then int_of_string (String.sub k 1 (String.length k - 1)) else 0)
+        | _ -> failwith ("bad fault " ^ f)) (items '/' fs) in
     (match String.split_on_char '@' (rest t) with
-     | [ts; fs] ->
-       FB (nids '+' ts, List.map (fun f -> match String.split_on_char ':' f with
-           | [e; k] when k <> "" ->
-             (int_of_string e, k.[0], if k.[0] = 'w' then int_of_string (String.sub k 1 (String.length k - 1)) else 0)
-           | _ -> failwith ("bad fault " ^ f)) (items '/' fs))
-     | [ts] -> FB (nids '+' ts, [])
+     | [ts; fs; bud] when bud <> "" && bud.[0] = 'k' -> FB (nids '+' ts, faults fs, Some (int_of_string (rest bud)))
+     | [ts; fs] -> FB (nids '+' ts, faults fs, None)
+     | [ts] -> FB (nids '+' ts, [], None)
      | _ -> failwith ("bad step " ^ t))
   | 'k' ->
     (match String.split_on_char '@' (rest t) with
@@ -274,7 +279,25 @@ let hist_line (direct : bool) (l : string) : string =
          | Some (st', l) ->
            Buffer.add_string buf (Printf.sprintf " | N ok=1 list=%s nodes=%s" (es l) (show_nodes st')); st := st'
          | None -> Buffer.add_string buf (Printf.sprintf " | N ok=0 list=- nodes=%s" (show_nodes !st)))
-      | FB (t, fs) ->
+      | FB (t, fs, Some kn) ->
+        (* -k N (HistFailKDefs.buildFK; N = 0: unlimited): several commands may fail *)
+        let ts = taint_safe g !st in
+        let faults = List.map (fun (e, k, c) ->
+            (nat_of_int e, match k with
+              | 'u' -> FailUntouched | 'd' -> FailDeleted
+              | 'w' -> FailWrote (fun o -> n_of_int (c + int_of_nat o))
+              | _ -> failwith "bad fault kind")) fs in
+        let budget = if kn <= 0 then None else Some (nat_of_int kn) in
+        (match buildFK cmdf g !st t faults budget with
+         | Some a ->
+           let fe = List.rev (failed_edges a) in
+           Buffer.add_string buf (Printf.sprintf " | F ok=1 failed=%s fe=%s ts=%s run=%s blk=%s bud=%s nodes=%s" (b (fe <> [])) (es fe) (b ts)
+                                    (es (trace_delta !st a.k_st)) (es (List.rev a.k_blocked))
+                                    (match a.k_budget with None -> "inf" | Some n -> string_of_int (int_of_nat n)) (show_nodes a.k_st));
+           st := a.k_st
+         | None ->
+           Buffer.add_string buf (Printf.sprintf " | F ok=0 failed=0 fe=- ts=%s run=- blk=- bud=- nodes=%s" (b ts) (show_nodes !st)))
+      | FB (t, fs, None) ->
         let ts = taint_safe g !st in
         let faults = List.map (fun (e, k, c) ->
             (nat_of_int e, match k with
